@@ -1893,7 +1893,28 @@ fn plan_trader(w: &World, knobs: &Knobs, actor: &mut Actor, l: &Ledger) -> Vec<(
                 all.truncate(1 + rng.below(3) as usize);
                 supp = all;
             }
-            let sx = if v2 { ix::swap_v2(&sa, &args, &supp) } else { ix::swap(&sa, &args) };
+            let mut sa = sa;
+            let mut read_only_supp = false;
+            if v2 && rng.chance(1, 10) {
+                // a careless client: the arrays of the path only as supplemental accounts and those read-only, other arrays
+                // of the pool in the three main slots (the program may refuse this; it must not trade past ticks)
+                let others: Vec<Pubkey> = decode::tick_arrays_of_pool(l, &sa.pool.whirlpool).into_iter().map(|(k, _)| k).filter(|k| !sa.tick_arrays.contains(k)).collect();
+                if !others.is_empty() {
+                    supp = sa.tick_arrays.to_vec();
+                    supp.dedup();
+                    for k in 0..3 {
+                        sa.tick_arrays[k] = others[rng.idx(others.len())];
+                    }
+                    read_only_supp = true;
+                }
+            }
+            let mut sx = if v2 { ix::swap_v2(&sa, &args, &supp) } else { ix::swap(&sa, &args) };
+            if read_only_supp {
+                let n = sx.accounts.len();
+                for m in sx.accounts[n - supp.len()..].iter_mut() {
+                    m.is_writable = false;
+                }
+            }
             flow.push((tx1(sx), if v2 { "swap_v2".to_string() } else { "swap".to_string() }));
         }
     }
